@@ -639,6 +639,52 @@ def wrapped_connect_specs(draw):
 
 
 @st.composite
+def frameshift_span_connect_specs(draw):
+    """ one location that crosses the origin and whose consecutive exons on either side of the origin may share 1-2 bases
+        (a programmed frameshift next to the origin, either strand), connected alone or with one or two nearby arcs; the
+        whole stays shorter than half the ring so that the minimal arc is the expected answer """
+    length = draw(st.sampled_from([60, 100, 101, 1000, 3000]))
+    reach = max(14, length // 5)
+    strand = draw(st.sampled_from([1, -1]))
+
+    def side(low: int, high: int, from_low_edge: bool) -> list:
+        parts = []
+        pos = low if from_low_edge or draw(st.booleans()) else draw(st.integers(low, low + 3))
+        for _ in range(draw(st.integers(1, 3))):
+            size = draw(st.integers(3, 7))
+            end = pos + size
+            if end > high:
+                break
+            parts.append([pos, end])
+            step = draw(st.sampled_from(["overlap1", "overlap2", "gap", "touch"]))
+            if step == "gap":
+                pos = end + draw(st.integers(1, 3))
+            elif step == "touch":
+                pos = end
+            else:
+                pos = end - (1 if step == "overlap1" else 2)
+        return parts
+    lower = side(0 if draw(st.booleans()) else draw(st.integers(0, 2)), reach, False)
+    upper = side(length - reach, length, False)
+    if upper and draw(st.booleans()):
+        shift = length - upper[-1][1]       # make the last exon before the origin end exactly on it
+        upper = [[a + shift, b + shift] for a, b in upper]
+    if not lower or not upper:
+        lower, upper = lower or [[0, 5]], upper or [[length - 6, length]]
+    main = {"parts": gen._order_parts(upper + lower, strand), "strand": strand, "kind": "span"}  # pylint: disable=protected-access
+    locs = [main]
+    for _ in range(draw(st.integers(0, 2))):
+        if draw(st.booleans()):
+            start = draw(st.integers(0, reach - 1))
+            end = draw(st.integers(start + 1, reach))
+        else:
+            start = draw(st.integers(length - reach, length - 1))
+            end = draw(st.integers(start + 1, length))
+        locs.append({"parts": [[start, end]], "strand": draw(st.sampled_from([1, -1])), "kind": "simple"})
+    return {"L": length, "locs": list(draw(st.permutations(locs))), "wrap": True}
+
+
+@st.composite
 def extend_specs(draw):
     length = draw(gen.lengths(1, 3000))
     circular = draw(st.booleans())
@@ -729,6 +775,7 @@ def run(ctx) -> None:
     ctx.hyp("offset", touching_offset_specs(), max_examples=ctx.pick(600, 15000), shards=rand_shards)
     ctx.hyp("connect", connect_specs(), max_examples=ctx.pick(1500, 40000), shards=rand_shards)
     ctx.hyp("connect", wrapped_connect_specs(), max_examples=ctx.pick(800, 20000), shards=rand_shards)
+    ctx.hyp("connect", frameshift_span_connect_specs(), max_examples=ctx.pick(600, 15000), shards=rand_shards)
     ctx.hyp("extend", extend_specs(), max_examples=ctx.pick(1000, 30000), shards=rand_shards)
     ctx.hyp("offset", offset_specs(), max_examples=ctx.pick(1500, 40000), shards=rand_shards)
     ctx.hyp("bridge", bridge_specs(), max_examples=ctx.pick(800, 20000), shards=rand_shards)
